@@ -133,6 +133,9 @@ func childMain(args []string) {
 	c.finish()
 }
 
+// Flush writes what the child has observed so far (used before a deliberate exit).
+func (c *Ctx) Flush() { c.finish() }
+
 func (c *Ctx) finish() {
 	c.closePhase()
 	out := shardOut{Evals: c.evals, Cov: c.cov, Maxes: c.maxes, Samples: c.samples, Faults: c.faults, Info: c.info, Distinct: len(c.distinct)}
